@@ -594,9 +594,15 @@ def replay(f):
         d = arr_from_witness(w, 'd', (H, W))
         mask = None if p['mask'] == 'none' else mask_from_witness(
             w, 'm', (H, W))
+        d0 = d.copy()
+        m0 = None if mask is None else mask.copy()
         with warnings.catch_warnings():
             warnings.simplefilter('ignore')
             x, y = cc.centroid_com(d, mask=mask)
+        if 'input-modified' in f['key']:
+            bad = not np.array_equal(d, d0, equal_nan=True) or (
+                mask is not None and not np.array_equal(mask, m0))
+            return bad, f'data/mask modified: {bad}'
         g = np.isfinite(d) & (~mask if mask is not None else True)
         v = np.where(g, d, 0.0)
         T = v.sum()
